@@ -838,6 +838,72 @@ func (r *dictRun) modeBig(rounds, n int) {
 	}
 }
 
+// wide: a node with 63..256 labels (keys that share a prefix and differ in the next byte), last node of the trie or
+// not, with a few extra keys so that the total number of labels takes every residue around the word size of the bit vectors
+func (r *dictRun) modeWide(rounds int) {
+	fans := []int{63, 64, 65, 66, 127, 128, 129, 192, 255, 256}
+	for i := 0; i < rounds; i++ {
+		for _, fan := range fans {
+			vg := newValGen(r.rng)
+			prefix := randStr(r.rng, [][]byte{{'h'}, {'o'}, {'s'}, {'t'}, {'-'}}, 1+r.rng.Intn(4))
+			first := r.rng.Intn(257 - fan)
+			seen := map[string]bool{}
+			var keys [][]byte
+			add := func(k []byte) {
+				if !seen[string(k)] {
+					seen[string(k)] = true
+					keys = append(keys, cloneB(k))
+				}
+			}
+			for b := 0; b < fan; b++ {
+				k := append(cloneB(prefix), byte(first+b))
+				if r.rng.Intn(8) == 0 {
+					k = append(k, randStr(r.rng, [][]byte{{'x'}, {'y'}}, 2)...)
+				}
+				add(k)
+			}
+			// extra keys before / after the wide node: they change the total label count and whether the wide node is the last one
+			for e := r.rng.Intn(5); e > 0; e-- {
+				if r.rng.Intn(2) == 0 {
+					add(append([]byte{'a'}, randStr(r.rng, [][]byte{{'p'}, {'q'}}, 2)...))
+				} else {
+					add(append([]byte{'z'}, randStr(r.rng, [][]byte{{'p'}, {'q'}}, 2)...))
+				}
+			}
+			sort.Slice(keys, func(a, b int) bool { return bytes.Compare(keys[a], keys[b]) < 0 })
+			s := &dictSet{keys: keys}
+			for range keys {
+				s.vals = append(s.vals, vg.next())
+			}
+			alpha := [][]byte{{'h'}, {'o'}, {'s'}, {'t'}, {'-'}, {byte(first)}, {byte(first + fan - 1)}, {0xFF}}
+			r.reset(trace.F{"mode": "wide", "round": i, "fan": fan, "n": len(s.keys)})
+			probes := genProbes(r.rng, alpha, s, len(s.keys), 20)
+			ps := genProbes(r.rng, alpha, s, 6, 6)
+			ps = append(ps, cloneB(prefix))
+			seeks := genProbes(r.rng, alpha, s, 4, 6)
+			b, t, d := r.buildTrie(s)
+			if t == nil {
+				continue
+			}
+			r.trieAll(t, d, s, probes, ps, seeks, false)
+			if t2, d2 := r.loadTrie(b, d); t2 != nil {
+				r.trieAll(t2, d2, s, probes, ps, seeks, false)
+			}
+			bs := []int{len(s.keys) + 1, len(s.keys)/2 + 1}[r.rng.Intn(2)]
+			if raw := r.bucketBytes(s, bs); raw != nil {
+				bk := model.NewTrieBucketWithBlockSize(bs)
+				var err error
+				if r.guarded("Unmarshal", nil, func() { err = bk.Unmarshal(raw) }) && err == nil {
+					db := r.newID()
+					r.emit("Load", trace.F{"d": db, "from": d, "via": fmt.Sprintf("bucket-builder(block=%d)", bs)})
+					r.bucketAll(bk, db, alpha, s, 40)
+					bk.Release()
+				}
+			}
+		}
+	}
+}
+
 // kv: the v1 flusher / reader / merger over a real kv store
 func (r *dictRun) modeKV(rounds int, scratch string, maxN int) {
 	for i := 0; i < rounds; i++ {
@@ -1107,6 +1173,7 @@ func dictMain(args []string) int {
 	nrand := fs.Int("rand", 60, "random rounds")
 	randN := fs.Int("rand-n", 60, "random rounds: max keys")
 	nbig := fs.Int("big", 1, "big rounds")
+	nwide := fs.Int("wide", 1, "rounds of key sets with a wide node (63..256 labels)")
 	bigN := fs.Int("big-n", 1500, "keys per big round")
 	nkv := fs.Int("kv", 6, "kv store rounds")
 	nseek := fs.Int("seek", 6, "seek rounds")
@@ -1155,6 +1222,7 @@ func dictMain(args []string) int {
 		}
 		r.modeRand(*nrand, *randN)
 		r.modeBig(*nbig, *bigN)
+		r.modeWide(*nwide)
 		r.modeKV(*nkv, *scratch, *randN)
 	})
 	run(*outSeek, func(r *dictRun) { r.modeSeek(*nseek) })
